@@ -1309,3 +1309,30 @@ class scope:
         if not E.concrete:
             E.solver.pop()
         return False
+
+
+_probe_no = [0]
+
+
+def bytes_equal(a, b):
+    """equality of two byte strings as ONE formula (for obligations, not for
+    branching): equal lengths and equal bytes at a fresh symbolic probe index
+    -- a counterexample instantiates the index"""
+    if E.concrete or not (_symbolic(a) or _symbolic(b)):
+        return builtins.bytes(a) == builtins.bytes(b)
+    a, b = SBytes.of(a), SBytes.of(b)
+    la, lb = a.length().e, b.length().e
+    if a.is_concrete_len() and b.is_concrete_len():
+        na, nb = z3.simplify(la).as_long(), z3.simplify(lb).as_long()
+        if na != nb:
+            return False
+        return SBool(z3.And(*[a.byte_at(bvv(i)) == b.byte_at(bvv(i))
+                              for i in range(na)])) if na else True
+    _probe_no[0] += 1
+    j = z3.BitVec(f"eqprobe{_probe_no[0]}", W)
+    inside = z3.And(j >= 0, j < la)
+    # byte_at needs a non-empty rope
+    if not a.segs or not b.segs:
+        return SBool(la == lb)
+    return SBool(z3.And(la == lb,
+                        z3.Implies(inside, a.byte_at(j) == b.byte_at(j))))
